@@ -492,7 +492,16 @@ def dup_cases():
 def build_misc(d):
     k = d['kind']
     w = d.get('w', 3)
-    if k == 'dead_memwrite':
+    if k == 'dup_regs':
+        # registers that load the very same wire but start from different values: not duplicates of one another
+        a = pyrtl.Input(w, 'a')
+        n = a ^ pyrtl.Input(w, 'b')
+        rs = [pyrtl.Register(w, 'r0', reset_value=0), pyrtl.Register(w, 'r1', reset_value=1), pyrtl.Register(w, 'r2')]
+        for i, r in enumerate(rs):
+            r.next <<= n
+            o = pyrtl.Output(w, 'o%d' % i)
+            o <<= r
+    elif k == 'dead_memwrite':
         # logic that only feeds a memory write port
         m = pyrtl.MemBlock(bitwidth=w, addrwidth=2, name='m', asynchronous=True)
         a, c, we = pyrtl.Input(w, 'a'), pyrtl.Input(2, 'wa'), pyrtl.Input(1, 'we')
@@ -648,6 +657,8 @@ def misc_cases():
     for k in ('mem_const_addr', 'mem_clear_port', 'mem_tied_enable'):
         out.append({'fam': 'MISC', 'kind': k, 'w': 3})
     out.append({'fam': 'MISC', 'kind': 'rom_sparse_pad'})
+    out.append({'fam': 'MISC', 'kind': 'dup_regs', 'w': 1})
+    out.append({'fam': 'MISC', 'kind': 'dup_regs', 'w': 3})
     return out
 
 
